@@ -13,6 +13,8 @@ import (
 	"fmt"
 	"sort"
 	"strings"
+	"sync"
+	"sync/atomic"
 	"time"
 
 	"github.com/mit-pdos/go-nfsd/kvs"
@@ -137,31 +139,38 @@ func cmdCrashKv(fs *flag.FlagSet, args []string) {
 		// refused, change nothing and write nothing, so the reference is the same — but whatever
 		// the journal does when it refuses must not cost an acknowledged put of somebody else its
 		// durability
-		var stopNoise, noiseDone chan bool
-		refused, accepted := 0, 0
+		var stopNoise chan bool
+		var noiseWg sync.WaitGroup
+		var refused, accepted int64
 		if w%2 == 1 {
-			stopNoise, noiseDone = make(chan bool), make(chan bool)
-			var big []kvs.KVPair
-			for k := uint64(0); k < 600; k++ {
-				big = append(big, kvs.KVPair{Key: 1200 + k, Val: make([]byte, 4096)})
+			stopNoise = make(chan bool)
+			// several of them: they queue on the journal's lock, so one of them runs (and is
+			// refused) right after every commit of the client under test
+			for g := 0; g < 4; g++ {
+				noiseWg.Add(1)
+				go func() {
+					defer noiseWg.Done()
+					var big []kvs.KVPair
+					junk := make([]byte, 4096)
+					for k := uint64(0); k < 512; k++ { // one more than a transaction holds
+						big = append(big, kvs.KVPair{Key: 1200 + k, Val: junk})
+					}
+					for {
+						select {
+						case <-stopNoise:
+							return
+						default:
+						}
+						ok := true
+						guardedCall(func() { ok = store.MultiPut(big) })
+						if ok {
+							atomic.AddInt64(&accepted, 1)
+						} else {
+							atomic.AddInt64(&refused, 1)
+						}
+					}
+				}()
 			}
-			go func() {
-				defer close(noiseDone)
-				for {
-					select {
-					case <-stopNoise:
-						return
-					default:
-					}
-					ok := true
-					guardedCall(func() { ok = store.MultiPut(big) })
-					if ok {
-						accepted++
-					} else {
-						refused++
-					}
-				}
-			}()
 		}
 		for i := 0; i < *nops; i++ {
 			n := 1 + r.Intn(5)
@@ -194,7 +203,7 @@ func cmdCrashKv(fs *flag.FlagSet, args []string) {
 		}
 		if stopNoise != nil {
 			close(stopNoise)
-			<-noiseDone
+			noiseWg.Wait()
 			emit("# kv workload %d ran next to %d refused oversized puts", w, refused)
 			if accepted > 0 {
 				emit("# ORACLE C18 oversized-put-accepted a MultiPut of 600 pairs (more than the log holds) returned true %d times", accepted)
